@@ -13,10 +13,11 @@ CHECKS = {
         rule="rapid draws picture recipe x full EncoderOptions product (lossy and lossless, presets, partitions, segments, passes, targets, filters, alpha triple, metadata subsets); "
              "oracle: independent RIFF/VP8/VP8L structural validator (riffwalk) + declared size/alpha/partition count vs request + package readers accept + libwebp 1.2.4 (dlopen) and golang.org/x/image "
              "decode the same bytes to the same samples as webp.Decode (Y/U/V planes for lossy, RGBA via a reference fancy upsampler for lossy+alpha, ARGB for lossless). "
-             "Non-trivial: >=2 colours; distinct = (codec, Method, metadata presence/parity, payload parities, partitions, segments, filter type/level0, Pass, target mode, sharp, preprocessing).",
+             "Non-trivial: >=2 colours; distinct = (codec, Method, metadata presence/parity, payload parities, partitions, segments, filter type/level0, Pass, target mode, sharp, preprocessing). "
+             "(limits) TestC02Limits: noise pictures of 70,000-160,000 macroblocks (long side up to 16383) at Quality 35-80, Method 3-6, so that partition 0 lies between ~320 KB and ~740 KB, i.e. on both sides of the frame tag's 19-bit length field; thorough also 16383 x 3600-4300 at Quality 100 with 2-4 partitions so that a token partition exceeds its 24-bit size field. Encode may refuse (counted encode=refused); a nil error must come with a file that validates and that all three decoders accept identically.",
         assumptions=["libwebp.so.7 (1.2.4) and x/image as independent decoders; a case where they disagree with each other is counted inconclusive, never a violation",
                      "riffwalk strictness = what a conforming writer must respect (chunk order VP8X,ICCP,ANIM,image,EXIF,XMP; flags <=> chunks; pad bytes zero)"],
-        tests=[dict(name="TestC02", quick=16000, thorough=150000)],
+        tests=[dict(name="TestC02", quick=16000, thorough=150000), dict(name="TestC02Limits", quick=4, thorough=32, shards=4)],
     ),
     "C07": dict(
         level="exploration",
